@@ -21,6 +21,7 @@ import (
 	gsmsg "github.com/ipfs/go-graphsync/message"
 	"github.com/ipfs/go-graphsync/requestmanager/hooks"
 	"github.com/ipfs/go-graphsync/requestmanager/types"
+	"github.com/ipfs/go-graphsync/verifhook"
 )
 
 var log = logging.Logger("gs_request_executor")
@@ -154,6 +155,11 @@ func (e *Executor) traverse(rt RequestTask) error {
 		err = e.advanceTraversal(rt, result)
 		if err != nil {
 			return err
+		}
+		if verifhook.Enabled {
+			// the traverser goroutine now visits the nodes of this block while this
+			// goroutine runs the block hooks; a simulator can let the former settle first
+			verifhook.Yield("executor.afterAdvance", rt.Request.ID().String(), nil)
 		}
 
 		// check for interrupts and run block hooks
